@@ -915,11 +915,22 @@ def replay_stream(w):
     return {"violated": bad, "observed": f"decode_golomb({data.hex()}) = {x} using {n0 - len(bits)} bits; reader: {e}"}
 
 
-def _gcs_path(n, bound):
+def _gcs_path(n, bound, wide=None, small=2, qlo=0, qhi=128):
     cf = _cf()
-    vals = [SI.var(f"a{i}", 0, bound - 1) for i in range(n)]
-    for i in range(n - 1):
-        assume(vals[i] <= vals[i + 1])
+    if wide is None:
+        vals = [SI.var(f"a{i}", 0, bound - 1) for i in range(n)]
+        for i in range(n - 1):
+            assume(vals[i] <= vals[i + 1])
+    else:
+        # one delta (position `wide`) with a quotient anywhere in [qlo, qhi) (values up to 2^26 = the property's Golomb range),
+        # the others with quotients below `small`: the unary part forks per quotient, so the wide delta moves through the positions
+        vals = [SI.var(f"a{i}", 0, (qhi + n * small) << P) for i in range(n)]
+        prev = 0
+        for i in range(n):
+            d = vals[i] - prev
+            assume(d >= (qlo << P) if i == wide else d >= 0)
+            assume(d < ((qhi if i == wide else small) << P))
+            prev = vals[i]
     w = lambda env: {"values": [env[f"a{i}"] for i in range(n)]}  # noqa
     g = cf.serialize_gcs(list(vals))
     e = spec_gcs(vals)
@@ -930,17 +941,24 @@ def _gcs_path(n, bound):
     return Out("ok", g)
 
 
-def ob_gcs(n, bound):
+def ob_gcs(n, bound, wide=None, small=2, qlo=0, qhi=128):
     nat = loader.native("compactfilter")
 
     def gen(rng):
+        if wide is not None:
+            v, prev = [], 0
+            for i in range(n):
+                prev += rng.randrange(qlo << P, qhi << P) if i == wide else rng.randrange(small << P)
+                v.append(prev)
+            return {f"a{i}": v[i] for i in range(n)}
         v = sorted(rng.randrange(bound) for _ in range(n))
         if n >= 2 and rng.random() < 0.4:
             v[1] = v[0]
         return {f"a{i}": v[i] for i in range(n)}
-    r = sym_run(lambda: _gcs_path(n, bound), gen_env=gen, native=lambda env: nat.serialize_gcs([env[f"a{i}"] for i in range(n)]), n_val=6,
+    r = sym_run(lambda: _gcs_path(n, bound, wide, small, qlo, qhi), gen_env=gen, native=lambda env: nat.serialize_gcs([env[f"a{i}"] for i in range(n)]), n_val=6,
                 timeout_ms=60000, max_violations=6)
-    r["sample"] = {"values": f"{n} symbolic sorted values in [0, {bound})"}
+    r["sample"] = {"values": f"{n} symbolic sorted values in [0, {bound})" if wide is None else
+                   f"{n} sorted values, delta {wide} with Golomb quotient in [{qlo},{qhi}) (values up to 2^26), the other deltas with quotient < {small}"}
     return r
 
 
@@ -1194,6 +1212,15 @@ def obligations(tier):
     for n in (0, 1, 2, 3):
         # quick: the range a real N-item filter uses, [0, N*M); thorough: [0, 2^22)
         obs.append(Ob("O3-gcs", ob_gcs, {"n": n, "bound": max(n, 1) * M if q else (1 << 22)}, replay="gcs", budget_s=1500))
+    # one wide delta: every quotient 0..127 for a one-item filter; for 2 and 3 items the quotients around the powers of two
+    # (window / byte boundaries of a unary reader) with the wide delta at every position
+    for qlo in (0, 32, 64, 96):
+        obs.append(Ob("O3-gcs-wide", ob_gcs, {"n": 1, "bound": 0, "wide": 0, "small": 2, "qlo": qlo, "qhi": qlo + 32}, replay="gcs", budget_s=1500))
+    edges = ((7, 10), (15, 18), (31, 34), (63, 66), (126, 128)) if q else ((6, 11), (14, 19), (22, 27), (30, 35), (46, 51), (62, 67), (94, 99), (123, 128))
+    for n in (2, 3):
+        for wide in range(n):
+            for lo, hi in edges:
+                obs.append(Ob("O3-gcs-wide", ob_gcs, {"n": n, "bound": 0, "wide": wide, "small": 2, "qlo": lo, "qhi": hi}, replay="gcs", budget_s=1500))
     # O4
     for n, mode in ((0, "exact"), (1, "exact"), (2, "exact"), (2, "range"), (3, "range+codec")):
         obs.append(Ob("O4-no-false-negative", ob_nofn, {"n": n, "mode": mode}, replay="nofn", budget_s=1500))
